@@ -625,6 +625,11 @@ def strip(a, ia, names):
 
 def prepend(o, name):
     if isinstance(o, AT):
+        if name in o.axes:
+            # the mapped function's value already varies along the rows of this table: two independent indices i, j run over the
+            # same rows (nested maps over two tables sharing their rows), i.e. row i of one is combined with row j of the other
+            raise Finding(f"the row axis {name} is mapped twice independently (a map nested in a map over tables that share their "
+                          f"rows): row i of one table is combined with every row j of the other instead of row i")
         return AT((name,) + o.axes, o.data)
     if isinstance(o, tuple):
         return tuple(prepend(x, name) for x in o)
